@@ -8,6 +8,8 @@ def dispatch (line : String) : String :=
   let r := match f with
     | "layer" :: rest => layerCmd rest
     | "force" :: rest => forceCmd rest
+    | "dist" :: rest => distCmd rest
+    | "perm" :: rest => permCmd rest
     | _ => none
   r.getD "bad-line"
 
